@@ -86,6 +86,11 @@ def check(run, ctx):
     for fn, (pref, tools, fold) in rows.items():
         f = repo.func(f"{MARK}.{fn}")
         probs = []
+        # recognisers written as a chain of whole-marker literals must list the full cross product
+        pairs = {(pre, t) for s_ in str_consts(f.node) for pre in ("//", "#") for t in ("thailint", "design-lint") if s_.strip().startswith(pre + " " + t + ":")}
+        if pairs and len(pairs) < 4:
+            missing = sorted({(a, b) for a in ("#", "//") for b in ("thailint", "design-lint")} - pairs)
+            probs.append(f"comment/tool combinations {missing} are not recognised")
         if pref != want[0]:
             probs.append(f"comment prefixes {sorted(pref)} (expected # and //)")
         if tools != want[1]:
@@ -94,7 +99,7 @@ def check(run, ctx):
             probs.append("subject is not case-folded")
         if probs:
             for p in probs:
-                kind = "prefix" if p.startswith("comment") else "tools" if p.startswith("tool") else "case"
+                kind = "combination" if p.startswith("comment/tool") else "prefix" if p.startswith("comment") else "tools" if p.startswith("tool") else "case"
                 run.finding(I2, fn, kind, f"{fn}: {p}", f.loc)
         else:
             run.ok(I2, fn, "prefixes {#,//} x tools {thailint,design-lint} x case-folded")
@@ -139,6 +144,11 @@ def check(run, ctx):
                 if isinstance(n.func.value, ast.Name) and n.func.value.id in params and not n.func.value.id.endswith("_lower"):
                     raw.append(norm(n))
         lowers = [n for n in ast.walk(f.node) if isinstance(n, ast.Call) and call_name(n) == "lower"]
+        # every local named *_lower must really be the case-folded value
+        for n in ast.walk(f.node):
+            if isinstance(n, ast.Assign) and len(n.targets) == 1 and isinstance(n.targets[0], ast.Name) and n.targets[0].id.endswith("_lower"):
+                if not contains(n.value, lambda x: isinstance(x, ast.Call) and call_name(x) in ("lower", "casefold")) and not (isinstance(n.value, ast.Subscript) and isinstance(n.value.value, ast.Name) and n.value.value.id.endswith("_lower")):
+                    raw.append(norm(n))
         if raw:
             run.finding(I5, fn, f"raw-compare:{raw[0]}", f"{fn} compares an un-folded operand: {raw[0]}", f.loc)
         elif not lowers:
